@@ -212,15 +212,21 @@ impl StringLiteral<&'_ str> {
 fn unescape_string_literal(mut s: &str) -> String {
     let mut string = String::new();
     while let Some(i) = s.bytes().position(|b| b == b'\\') {
-        let c = match s.as_bytes()[i + 1] {
-            b'\'' => '\'',
-            b'"' => '"',
-            b'\\' => '\\',
-            b'/' => '/',
-            b'n' => '\n',
-            b'r' => '\r',
-            b't' => '\t',
-            _ => panic!("Invalid escape"),
+        let c = match s.as_bytes().get(i + 1) {
+            Some(b'\'') => '\'',
+            Some(b'"') => '"',
+            Some(b'\\') => '\\',
+            Some(b'/') => '/',
+            Some(b'n') => '\n',
+            Some(b'r') => '\r',
+            Some(b't') => '\t',
+            // The lexer has already reported the invalid escape code (or the unterminated literal),
+            // keep the text as it is
+            _ => {
+                string.push_str(&s[..i + 1]);
+                s = &s[i + 1..];
+                continue;
+            }
         };
         string.push_str(&s[..i]);
         string.push(c);
@@ -528,6 +534,10 @@ impl<'input> Tokenizer<'input> {
             // TODO: Unicode escape codes
             Some((end, b)) => {
                 let ch = self.chars.chars.as_str_suffix().restore_char(&[b]);
+                // Do not stop in the middle of a multi-byte character
+                while let Some((_, 0x80..=0xBF)) = self.lookahead() {
+                    self.bump();
+                }
                 self.recover(start, end, UnexpectedEscapeCode(ch), b)
                     .map(|s| s.value)
             }
@@ -630,6 +640,36 @@ impl<'input> Tokenizer<'input> {
             Some((start, b'\\')) => self.escape_code(start)?,
             Some((end, b'\'')) => {
                 return self.recover(start, end, EmptyCharLiteral, Token::CharLiteral('\0'));
+            }
+            Some((_, ch)) if ch >= 0x80 => {
+                // A multi-byte scalar value, its remaining bytes follow
+                let width = match ch {
+                    0xC0..=0xDF => 2,
+                    0xE0..=0xEF => 3,
+                    _ => 4,
+                };
+                let mut buf = [ch, 0, 0, 0];
+                for b in &mut buf[1..width] {
+                    match self.bump() {
+                        Some((_, next)) => *b = next,
+                        None => return self.eof_recover(Token::CharLiteral('\0')),
+                    }
+                }
+                let ch = std::str::from_utf8(&buf[..width])
+                    .ok()
+                    .and_then(|s| s.chars().next())
+                    .unwrap_or(char::REPLACEMENT_CHARACTER);
+                return match self.bump() {
+                    Some((_, b'\'')) => Ok(pos::spanned2(
+                        start,
+                        self.next_loc(),
+                        Token::CharLiteral(ch),
+                    )),
+                    Some((end, _)) => {
+                        self.recover(start, end, UnterminatedCharLiteral, Token::CharLiteral(ch))
+                    }
+                    None => self.eof_recover(Token::CharLiteral('\0')),
+                };
             }
             Some((_, ch)) => ch,
             None => return self.eof_recover(Token::CharLiteral('\0')),
